@@ -35,6 +35,8 @@ func runC15(c *Ctx) {
 	r.Rule("R7-header-parser-only-in-reverse-proxy", "the real-client-IP header parser is installed only under reverse-proxy mode (shared with C16.R4)", 1)
 	runParserUnderFlag(c, "R7-header-parser-only-in-reverse-proxy")
 	r.Rule("R9-rules-reach-matcher-verbatim", "the operator's skip-auth routes, skip-auth regexes and trusted-IP entries are never rewritten between option loading and the code that compiles them (no element store, reordering or reassignment outside pkg/apis/options); the loader installs no decode hook of its own and uses only its reviewed switches", 5)
+	r.Rule("R10-reverse-proxy-flag-is-the-option", "the per-request ReverseProxy flag that lets X-Forwarded-Uri replace the path the rules are matched against is the operator's option and nothing else (shared with C16.R3, round 8)", 3)
+	c.R.WithAlias(map[string]string{"R3-flag-integrity": "R10-reverse-proxy-flag-is-the-option"}, func() { runC16Body(c) })
 	r.Rule("R8-remote-address", "without a header parser the client address is the host part of RemoteAddr that net.ParseIP accepted; nothing overwrites RemoteAddr", 3)
 	runRemoteIPRule(c, "R8-remote-address")
 
